@@ -554,6 +554,7 @@ type ViolationOut struct {
 	Known   string            `json:"known,omitempty"`
 	Values  map[string]string `json:"values"`
 	Choices map[string]int    `json:"choices,omitempty"`
+	PathNotes []string        `json:"notes,omitempty"`
 	Obs     map[string]string `json:"obs,omitempty"`
 	Where   string            `json:"where,omitempty"`
 }
@@ -631,6 +632,9 @@ func (w *Worker) RunJob(job Job) (res *JobResult) {
 				var k int
 				fmt.Sscanf(n[i+1:], "%d", &k)
 				vo.Choices[n[:i]] = k
+			}
+			if strings.HasPrefix(n, "panic") || strings.HasPrefix(n, "no termination") {
+				vo.PathNotes = append(vo.PathNotes, n)
 			}
 		}
 		res.Violations = append(res.Violations, vo)
